@@ -40,6 +40,20 @@ GemmBadInner(dt) ==
    LET A == Iota(dt, <<2, 3>>, 0) B == Iota(dt, <<2, 3>>, 0) s == SemGemm(A, B, Nil, <<>>) IN
    CaseRec("gemm", "Gemm", <<>>, <<A, B>>, s, <<Tag(s), "inner_mismatch">>)
 
+\* magnitudes: alpha * (A * B) with operands whose product is moderate although alpha * A or alpha * B alone leaves the float32
+\* range; every factor is a power of two, so the expected element K * 2^(ea + eb + eal) is exact whatever the rounding
+Pow2(e) == [c |-> "ord", n |-> (e + 127) * 8388608, d |-> 1]          \* float32 2^e by its ordinal, -126 <= e <= 127
+GemmMagCase(K, N, ea, eb, eal, tA, tB) ==
+   LET A == T("f32", IF tA THEN <<K, 1>> ELSE <<1, K>>, [k \in 1..K |-> Pow2(ea)])
+       B == T("f32", IF tB THEN <<N, K>> ELSE <<K, N>>, [k \in 1..(K * N) |-> Pow2(eb)])
+       attrs == <<AF("alpha", Pow2(eal)), AI("transA", IF tA THEN 1 ELSE 0), AI("transB", IF tB THEN 1 ELSE 0)>> IN
+   CaseRec("gemm", "Gemm", attrs, <<A, B>>, MustValue(<<T("f32", <<1, N>>, [k \in 1..N |-> Pow2(ea + eb + eal + (K - 1))])>>),
+           <<"value", "f32", "magnitudes", IF K < N THEN "K_lt_N" ELSE IF K > N THEN "K_gt_N" ELSE "K_eq_N">>)
+GemmMagCases ==
+   \A K \in 1..2, N \in 1..2, tA \in BOOLEAN, tB \in BOOLEAN :
+      \A e \in {<<100, -120, 40>>, <<-120, 100, 40>>, <<-100, 126, -40>>, <<126, -100, -40>>, <<60, 60, -100>>, <<-70, -70, 120>>} :
+         P(GemmMagCase(K, N, e[1], e[2], e[3], tA, tB))
+
 \* LinearRegressor: coefficients are distinct small integers
 LRCase(N, F, Tg, ik, dt) ==
    LET X == Iota(dt, <<N, F>>, 0)
@@ -83,6 +97,7 @@ Emit ==
                     /\ \A dt \in {"f64", "i32", "i64", "u32", "u64"}, ck \in {"absent", "N", "MN"} :
                           P(GemmCase(st.tA, st.tB, <<Fin(2), Fin(-1)>>, ck, 2, 3, 2, dt, FALSE)) /\ P(GemmCase(st.tA, st.tB, <<Fin(1), Fin(1)>>, ck, 2, 3, 2, dt, TRUE))
                     /\ P(GemmBadInner("f32")))
+              /\ (st.M = 1 /\ st.K = 1 /\ st.N = 1 /\ ~st.tA /\ ~st.tB => GemmMagCases)
         [] st.fam = "linreg" ->
               /\ \A ik \in {"absent", "one", "targets", "bad"} : P(LRCase(st.N, st.F, st.Tg, ik, "f32"))
               /\ (st.N = 2 /\ st.F = 2 => \A dt \in {"f64", "i32", "i64"} : P(LRCase(2, 2, st.Tg, "targets", dt)))
